@@ -138,6 +138,20 @@ CHECKS = {
         "external-event placement, not arbitrary callback permutations.",
         "5/C07",
     ),
+    "C09": (
+        "exploration",
+        "differential testing against one-shot reference decoders (zlib, brotli, zstd) through the full receive stacks "
+        "(ResponseHandler / RequestHandler on in-memory transports that honour pause) under generated payload shapes, "
+        "codings, framings, corruptions, segmentations, consumer schedules and buffer limits; resident decoded bytes "
+        "sampled after every loop iteration; stalls detected as quiescence of the virtual-time loop",
+        "Bytes read must equal the reference decode, streams the reference rejects must surface as errors (or deliver "
+        "only a correct prefix where the suite pins tolerance), the consumer must always reach end-of-body, resident "
+        "decoded data must stay within 4x the effective limit plus one wire segment, and server read() must respect "
+        "client_max_size.",
+        "Trusts the reference decoders and vlib/memnet.py; brotli library overshoot is allowed for; bounded liveness only "
+        "(quiescence of a deterministic loop).",
+        "5/C09",
+    ),
 }
 
 REASON_PENDING = "check not built yet in this round (design in DESIGN.md section 5); not claimed until it runs quietly on the unchanged tree"
